@@ -69,7 +69,7 @@ TEXT = {
          "Monotonicity under racing advancers as a schedule property is not decided.", "4.4, 4.5, 5/C14"),
  "C15": ("Decides at-most-once by linearity (Deferred not Clone/Copy, call(self)), no deferred value is forgotten, full-bag "
          "re-queue, thread-exit hand-over, Bag::drop calls all, closure storage sound for every size/alignment, pops read and "
-         "retire only on CAS success. 'Eventually' is not decided.", "4.5, 5/C15"),
+         "retire only on CAS success.", "4.5, 5/C15"),
  "C16": ("Decides guard counting, clear-on-outermost-only, the repin/reactivate_after sequences including the unwind edge, "
          "&mut receivers, Guard: !Send + !Sync (witnesses), Local.epoch written only through self, and that no assertion "
          "reachable from a Guard method fails on handle_count == 0 alone (F9, fixed).", "4.5, 4.6, 5/C16, 10.3"),
